@@ -258,6 +258,23 @@ def main(argv):
             run.ob('C05:parity:generate', DOWNGRADED, 'SMT-A', 'pyvc', detail=V.unsupported)
         else:
             for cl, d in sorted(V.clauses.items()):
+                if d['status'] == 'sat':
+                    # replay the counter-model on the real function before calling it a violation
+                    from miasmx.expression.expression_helper import parity as real_parity
+                    try: a = int((d['witness'] or {}).get('a', 0))
+                    except Exception: a = 0
+                    try:
+                        got = real_parity(a); want = 1 - bin(a & 0xFF).count('1') % 2
+                        bad = (got != want)
+                    except Exception as ex:
+                        got, want, bad = repr(ex), None, True
+                    if bad:
+                        run.ob('C05:parity:%s' % cl, FAILED, 'SMT-A', 'z3', d['secs'], detail='parity(%d) = %s, expected %s' % (a, got, want), confirmed=True, func='parity')
+                    else:
+                        run.ob('C05:parity:%s' % cl, DOWNGRADED, 'SMT-A', 'z3', d['secs'], detail='counter-model %s does not replay on the real function (uninterpreted bit operations); all 256 low bytes checked natively instead' % d['witness'], func='parity')
+                        wrong = [a for a in list(range(256)) + [256, 257, -1, -255, 1 << 40] if real_parity(a) != 1 - bin(a & 0xFF).count('1') % 2]
+                        run.ob('C05:parity:twin', FAILED if wrong else BOUNDED_OK, 'BND', 'cpython-enum', detail=('parity(%d) wrong' % wrong[0]) if wrong else '261 inputs', confirmed=bool(wrong), func='parity')
+                    continue
                 st = {'unsat': DISCHARGED, 'unknown': DOWNGRADED}.get(d['status'], FAILED)
                 run.ob('C05:parity:%s' % cl, st, 'SMT-A', 'z3', d['secs'], detail=str(d['detail']) + ' ' + str(d['witness']), confirmed=False, func='parity')
     except Exception:
